@@ -595,7 +595,7 @@ def build_program_module(rnd, profile, n_funcs=12, memory=True, table=True):
     if elems:
         c.mod.elems.append((0, [('i32.const', 0)], elems))
     for k, (idx, ps, res) in enumerate(list(c.funcs)):
-        c.add_wrapper(idx, 'f%d' % k)
+        c.add_wrapper(idx, 'w%d' % k)
     c.add_state_dump()
     c.add_scratch_getter()
     return c
